@@ -1,0 +1,8 @@
+//go:build !verif
+
+// Package verifhook marks instants of multi-step operations for the verification harness.
+// Without the build tag verif every call is an empty function.
+package verifhook
+
+// Hit marks that the named instant has been reached
+func Hit(name string) {}
